@@ -692,24 +692,106 @@ func r163(c *fw.Ctx) {
 	efd, _ := needDecl(c, rule, "(*CodeBuilder).endFuncBody")
 	if sfd != nil && efd != nil {
 		saved, restored := map[string]bool{}, map[string]bool{}
+		// selectors are resolved through type information: `old.f` is a field f selected on the saved-context
+		// parameter/variable (type funcBodyCtx), `X.current.f` a field f promoted through CodeBuilder.current
+		ctxField := func(e ast.Expr) (field string, onOld, onCurrent bool) {
+			se, ok := unparen(e).(*ast.SelectorExpr)
+			if !ok {
+				return
+			}
+			fv, ok := info.Uses[se.Sel].(*types.Var)
+			if !ok || !fv.IsField() {
+				return
+			}
+			field = fv.Name()
+			bt := info.TypeOf(se.X)
+			if bt == nil {
+				return
+			}
+			if namedIs(bt, fw.Mod, "funcBodyCtx") {
+				if inner, ok := unparen(se.X).(*ast.SelectorExpr); ok && inner.Sel.Name == "current" {
+					onCurrent = true
+				} else {
+					onOld = true
+				}
+			}
+			return
+		}
+		firstWrite := map[string]token.Pos{} // first overwrite of current.f in startFuncBody
+		savePos := map[string]token.Pos{}
+		sameStmtSave := map[string]bool{}
+		resetTo := map[string]ast.Expr{}
 		inspectFunc(sfd, func(n ast.Node) bool {
-			if as, ok := n.(*ast.AssignStmt); ok && len(as.Lhs) == 2 && len(as.Rhs) == 2 {
-				l0, l1, r1 := exprString(as.Lhs[0]), exprString(as.Lhs[1]), exprString(as.Rhs[1])
-				if strings.Contains(l0, ".current.") && strings.HasPrefix(l1, "old.") && r1 == l0 {
-					saved[strings.TrimPrefix(l1, "old.")] = true
+			as, ok := n.(*ast.AssignStmt)
+			if !ok || len(as.Lhs) != len(as.Rhs) {
+				return true
+			}
+			for i := range as.Lhs {
+				lf, lOld, lCur := ctxField(as.Lhs[i])
+				rf, _, rCur := ctxField(as.Rhs[i])
+				if lOld && rCur && lf == rf {
+					if _, seen := savePos[lf]; !seen {
+						savePos[lf] = as.Pos()
+					}
+					// a tuple assignment evaluates its right-hand side first: saving and overwriting in one
+					// statement is safe
+					for j := range as.Lhs {
+						if f, _, cur := ctxField(as.Lhs[j]); cur && f == lf {
+							sameStmtSave[lf] = true
+						}
+					}
+				}
+				if lCur {
+					if _, seen := firstWrite[lf]; !seen {
+						firstWrite[lf] = as.Pos()
+						resetTo[lf] = as.Rhs[i]
+					}
 				}
 			}
 			return true
 		})
+		for f, sp := range savePos {
+			fw_, written := firstWrite[f]
+			if !written || sameStmtSave[f] || sp < fw_ {
+				saved[f] = true
+			}
+		}
 		inspectFunc(efd, func(n ast.Node) bool {
-			if as, ok := n.(*ast.AssignStmt); ok && len(as.Lhs) == 1 && len(as.Rhs) == 1 {
-				l, r := exprString(as.Lhs[0]), exprString(as.Rhs[0])
-				if strings.Contains(l, ".current.") && strings.HasPrefix(r, "old.") && strings.HasSuffix(l, "."+strings.TrimPrefix(r, "old.")) {
-					restored[strings.TrimPrefix(r, "old.")] = true
+			as, ok := n.(*ast.AssignStmt)
+			if !ok || len(as.Lhs) != len(as.Rhs) {
+				return true
+			}
+			for i := range as.Lhs {
+				lf, _, lCur := ctxField(as.Lhs[i])
+				rf, rOld, _ := ctxField(as.Rhs[i])
+				if lCur && rOld && lf == rf {
+					restored[lf] = true
 				}
 			}
 			return true
 		})
+		// a new function body starts with its own function object and with fresh per-function state:
+		// labels and the tracked panic calls belong to one function (Go: labels are function-scoped)
+		for _, f := range []string{"labels", "panicCalls"} {
+			e := resetTo[f]
+			isNil := false
+			if e != nil {
+				if tv, ok := info.Types[e]; ok && tv.IsNil() {
+					isNil = true
+				}
+			}
+			c.Check(isNil, rule, "startFuncBody/fresh-"+f, sfd.Pos(), "a function body must start with an empty %s table (per-function state): the enclosing function's %s would otherwise be visible inside the closure", f, f)
+		}
+		{
+			e := resetTo["fn"]
+			okFn := false
+			if id, ok := e.(*ast.Ident); ok {
+				if v, ok := info.Uses[id].(*types.Var); ok && namedIs(v.Type(), fw.Mod, "Func") {
+					okFn = true
+				}
+			}
+			c.Check(okFn, rule, "startFuncBody/current-fn-is-the-new-function", sfd.Pos(), "the current function must become the function whose body starts")
+		}
 		// every non-embedded field of funcBodyCtx must be saved and restored
 		var want []string
 		if tn, ok := p.Types.Scope().Lookup("funcBodyCtx").(*types.TypeName); ok {
